@@ -47,6 +47,7 @@ type Target struct {
 	KeyedBy *KeyedBySpec       `json:"keyedby,omitempty"` // list of (field, string key): which string-keyed lookup feeds each field of a composite literal
 	CallArg *CallArgSpec       `json:"callarg,omitempty"` // translate the index-th argument of the first call of this function (text of the callee) inside Func
 	FuncLit string             `json:"funclit,omitempty"` // translate the function literal assigned to this variable inside Func (as if it were a function)
+	Stmt    string             `json:"stmt,omitempty"`   // fragment = the first statement of Func (at any depth) whose text starts with this prefix
 	Body    bool               `json:"body,omitempty"`   // fragment = the whole body of a function without result (Free = variables live on entry)
 	Marks   map[string]string  `json:"marks,omitempty"`  // "f" -> v: a statement `go f(...)` / `f(...)` is the assignment v = true (v a Free bool): which side effects a path triggers
 	IfCond  string             `json:"ifcond,omitempty"` // translate the condition of the (first) if statement of the function whose condition reads exactly so
@@ -1203,6 +1204,22 @@ func main() {
 			}
 			var fparams []param
 			body := fd.Body.List
+			if t.Stmt != "" {
+				var found ast.Stmt
+				ast.Inspect(fd.Body, func(n ast.Node) bool {
+					if st, ok := n.(ast.Stmt); ok && found == nil {
+						if _, isBlock := st.(*ast.BlockStmt); !isBlock && strings.HasPrefix(g.text(st), t.Stmt) {
+							found = st
+						}
+					}
+					return found == nil
+				})
+				if found == nil {
+					fail(fset.Position(fd.Pos()), "no statement starting with %q in %s", t.Stmt, t.Func)
+				}
+				body = []ast.Stmt{found}
+				t.Body = true
+			}
 			if t.Body {
 				for _, fr := range t.Free {
 					n, c := splitPC(fr)
@@ -1362,7 +1379,9 @@ func main() {
 			if t.From != "" {
 				fmt.Fprintf(b, " (statements %s .. %s)", t.From, t.To)
 			}
-			if t.Body {
+			if t.Stmt != "" {
+				fmt.Fprintf(b, " (the statement starting %q)", t.Stmt)
+			} else if t.Body {
 				fmt.Fprintf(b, " (whole body)")
 			}
 			fmt.Fprintf(b, "; source sha256 %x\n", h[:8])
